@@ -2,6 +2,7 @@ import Grass.Color
 import Grass.Generated.CssColorsRef
 import GrassProofs.Lemmas.ColorNum
 import GrassProofs.Lemmas.ColorConv
+import GrassProofs.Lemmas.ColorRoundTrip
 /-
   C15 — Colours keep channels in range and agree across spellings and colour spaces.
 
@@ -45,13 +46,20 @@ example : lookupRgb (0, 255, 255) = some [97, 113, 117, 97] := by decide +kernel
 
 /-! ## 2. Channels stay in range -/
 
+/-- the stored channels and raw alpha of a result, for the `example`s -/
+def chansOf : Except Err Color → Option (Rat × Rat × Rat × Rat)
+  | .ok c => some (c.r, c.g, c.b, c.a)
+  | .error _ => none
+
 theorem wf_inRange {c : Color} (h : c.wf = true) : c.inRange = true := by
   simp only [Color.wf, Bool.and_eq_true, Bool.or_eq_true, decide_eq_true_eq, beq_iff_eq] at h
   obtain ⟨⟨⟨hr, hg⟩, hb⟩, ha⟩ := h
-  simp only [Color.inRange, Color.alpha, hr, hg, hb, Bool.and_eq_true, decide_eq_true_eq, true_and]
-  rcases ha with ⟨a0, a1⟩ | a255
-  · split <;> grind
-  · rw [a255]; decide +kernel
+  have key : 0 ≤ c.alpha ∧ c.alpha ≤ 1 := by
+    unfold Color.alpha
+    rcases ha with ⟨a0, a1⟩ | a255
+    · split <;> grind
+    · simp only [a255]; decide +kernel
+  simp [Color.inRange, hr, hg, hb, key.1, key.2]
 
 theorem wf_alpha {c : Color} (h : c.wf = true) : 0 ≤ c.alpha ∧ c.alpha ≤ 1 := by
   have := wf_inRange h
@@ -83,15 +91,15 @@ theorem C15_channels_in_range_rgb (r g b : Rat × String) (a : Option (Rat × St
       · cases h
   all_goals cases h
 
-example : ∃ c, fnRgb (300, "") (-5, "") (255/2, "") (some (50, "pct")) = .ok c ∧ c.r = 255 ∧ c.g = 0 ∧ c.b = 128 ∧ c.a = 1/2 :=
-  ⟨_, by decide +kernel⟩
+example : chansOf (fnRgb (300, "") (-5, "") (255/2, "") (some (50, "pct"))) = some (255, 0, 128, 1/2) := by
+  decide +kernel
 
 theorem fromHsla_wf (hue sat light alpha : Rat) (a0 : 0 ≤ alpha) (a1 : alpha ≤ 1) :
     (fromHsla hue sat light alpha).wf = true ∧ (fromHslaFn hue sat light alpha).wf = true := by
   have ⟨h0, h1⟩ := sassMod_bounds hue
   have hb := hslToRgbExact_bounds (hue := sassMod hue 360) (sat := sat) (light := light) h0 h1
-  unfold fromHslaFn fromHsla
-  generalize hslToRgbExact (sassMod hue 360) sat light = t at hb
+  simp only [fromHslaFn, fromHsla]
+  generalize hslToRgbExact (sassMod hue 360) sat light = t at hb ⊢
   obtain ⟨r, g, b⟩ := t
   simp only [] at hb ⊢
   obtain ⟨⟨r0, r1⟩, ⟨g0, g1⟩, ⟨b0, b1⟩⟩ := hb
@@ -123,14 +131,14 @@ theorem C15_channels_in_range_hsl (h s l : Rat × String) (a : Option (Rat × St
       have ⟨a0, a1⟩ := pctOrUnitless_bounds (by decide +kernel) ha
       exact (fromHsla_wf _ _ _ _ a0 a1).2
 
-example : ∃ c, fnHsl (-30, "deg") (120, "pct") (50, "pct") none = .ok c ∧ c.r = 255 ∧ c.g = 0 ∧ c.b = 128 :=
-  ⟨_, by decide +kernel⟩
+example : chansOf (fnHsl (-30, "deg") (120, "pct") (50, "pct") none) = some (255, 0, 128, 1) := by
+  decide +kernel
 
 theorem fromHwb_wf (hue white black alpha : Rat) (w0 : 0 ≤ white) (b0 : 0 ≤ black) :
     (fromHwb hue white black alpha).wf = true := by
   have hb := hwbToRgbExact_bounds (hue := hue) w0 b0
   unfold fromHwb
-  generalize hwbToRgbExact hue white black = t at hb
+  generalize hwbToRgbExact hue white black = t at hb ⊢
   obtain ⟨r, g, b⟩ := t
   simp only [] at hb ⊢
   obtain ⟨⟨r0, r1⟩, ⟨g0, g1⟩, ⟨b0', b1⟩⟩ := hb
@@ -161,7 +169,432 @@ theorem C15_channels_in_range_hwb (h w b : Rat × String) (a : Option (Rat × St
           exact fromHwb_wf _ _ _ _ (assertBounds_ok hw).1 (assertBounds_ok hb).1
       all_goals cases hc
 
-example : ∃ c, fnHwb (120, "") (80, "pct") (60, "pct") none = .ok c ∧ c.r = 146 ∧ c.g = 146 ∧ c.b = 146 :=
-  ⟨_, by decide +kernel⟩
+example : chansOf (fnHwb (120, "") (80, "pct") (60, "pct") none) = some (146, 146, 146, 1) := by
+  decide +kernel
+
+theorem natCast_le_255 {n : Nat} (h : n ≤ 255) : (n : Rat) ≤ 255 := by
+  have := (Rat.natCast_le_natCast (a := n) (b := 255)).mpr h
+  simpa using this
+
+theorem chanOk_natCast {n : Nat} (h : n ≤ 255) : chanOk (n : Rat) = true := by
+  simp [chanOk, isInt_natCast, Rat.natCast_nonneg, natCast_le_255 h]
+
+theorem alpha255_bounds {n : Nat} (h : n ≤ 255) : 0 ≤ (n : Rat) / 255 ∧ (n : Rat) / 255 ≤ 1 := by
+  have a := natCast_le_255 h
+  have b : (0 : Rat) ≤ (n : Rat) := Rat.natCast_nonneg
+  constructor <;> grind
+
+/-- hex literals (3, 4, 6 or 8 digits): the parsed colour is in range. -/
+theorem C15_channels_in_range_hex (ds : List Nat) (t : String) (c : Color) (hd : ∀ d ∈ ds, d < 16)
+    (h : ofHexDigits ds t = some c) : c.wf = true ∧ c.inRange = true := by
+  suffices c.wf = true from ⟨this, wf_inRange this⟩
+  unfold ofHexDigits at h
+  split at h
+  · cases h
+    rename_i d1 d2 d3
+    have h1 := hd d1 (by simp); have h2 := hd d2 (by simp); have h3 := hd d3 (by simp)
+    exact wf_mk (chanOk_natCast (by omega)) (chanOk_natCast (by omega)) (chanOk_natCast (by omega)) (by decide +kernel) (by decide +kernel)
+  · cases h
+    rename_i d1 d2 d3 d4
+    have h1 := hd d1 (by simp); have h2 := hd d2 (by simp); have h3 := hd d3 (by simp); have h4 := hd d4 (by simp)
+    have ⟨a0, a1⟩ := alpha255_bounds (n := d4 * 16 + d4) (by omega)
+    exact wf_mk (chanOk_natCast (by omega)) (chanOk_natCast (by omega)) (chanOk_natCast (by omega)) a0 a1
+  · cases h
+    rename_i d1 d2 d3 d4 d5 d6
+    have h1 := hd d1 (by simp); have h2 := hd d2 (by simp); have h3 := hd d3 (by simp); have h4 := hd d4 (by simp)
+    have h5 := hd d5 (by simp); have h6 := hd d6 (by simp)
+    exact wf_mk (chanOk_natCast (by omega)) (chanOk_natCast (by omega)) (chanOk_natCast (by omega)) (by decide +kernel) (by decide +kernel)
+  · cases h
+    rename_i d1 d2 d3 d4 d5 d6 d7 d8
+    have h1 := hd d1 (by simp); have h2 := hd d2 (by simp); have h3 := hd d3 (by simp); have h4 := hd d4 (by simp)
+    have h5 := hd d5 (by simp); have h6 := hd d6 (by simp); have h7 := hd d7 (by simp); have h8 := hd d8 (by simp)
+    have ⟨a0, a1⟩ := alpha255_bounds (n := d7 * 16 + d8) (by omega)
+    exact wf_mk (chanOk_natCast (by omega)) (chanOk_natCast (by omega)) (chanOk_natCast (by omega)) a0 a1
+  · cases h
+
+example : (ofHexDigits [10, 11, 12, 8] "#abc8").map (fun c => (c.r, c.g, c.b, c.a)) = some (170, 187, 204, 136/255) := by
+  decide +kernel
+
+theorem named_table_values_ok :
+    nameToRgba.all (fun e => decide (e.2.1 ≤ 255) && decide (e.2.2.1 ≤ 255) && decide (e.2.2.2.1 ≤ 255)
+      && (e.2.2.2.2 == 0 || e.2.2.2.2 == 255)) = true := by
+  decide +kernel
+
+/-- named colours: the colour the parser builds is in range (raw alpha 255 reads back as 1). -/
+theorem C15_channels_in_range_named (codes : List Nat) (t : String) (c : Color)
+    (h : ofNameCodes codes t = some c) : c.wf = true ∧ c.inRange = true := by
+  suffices c.wf = true from ⟨this, wf_inRange this⟩
+  unfold ofNameCodes at h
+  split at h
+  · rename_i r g b a hl
+    cases h
+    unfold lookupName at hl
+    cases hf : nameToRgba.find? (fun e => e.1 == codes.map lowerCode) with
+    | none => simp [hf] at hl
+    | some e =>
+      simp [hf] at hl
+      have hm := List.mem_of_find?_eq_some hf
+      have ok := List.all_eq_true.mp named_table_values_ok e hm
+      rw [hl] at ok
+      simp only [Bool.and_eq_true, decide_eq_true_eq, Bool.or_eq_true, beq_iff_eq] at ok
+      obtain ⟨⟨⟨hr, hg⟩, hb⟩, ha⟩ := ok
+      have cr := chanOk_natCast hr; have cg := chanOk_natCast hg; have cb := chanOk_natCast hb
+      rcases ha with ha | ha <;> subst ha
+      · exact wf_mk cr cg cb (by simp) (by simp; decide +kernel)
+      · simp [newNamed, Color.wf, cr, cg, cb]
+  · cases h
+
+example : (ofNameCodes [82, 101, 68] "ReD").map (fun c => (c.r, c.g, c.b, c.a)) = some (255, 0, 0, 255) := by
+  decide +kernel
+
+/-! ## 3. Functions keep colours in range -/
+
+/-- mix(): in range whatever the operands and the weight. -/
+theorem C15_channels_in_range_mix (c1 c2 : Color) (w : Rat) :
+    (mix false c1 c2 w).wf = true ∧ (mix false c1 c2 w).inRange = true := by
+  suffices (mix false c1 c2 w).wf = true from ⟨this, wf_inRange this⟩
+  unfold mix
+  generalize mixPre c1 c2 w = t
+  obtain ⟨r, g, b, a⟩ := t
+  simp only [Bool.false_eq_true, if_false]
+  exact (fromRgba_wf _ (fuzzyRound_isInt _) (fuzzyRound_isInt _) (fuzzyRound_isInt _)).1
+
+theorem C15_channels_in_range_invert (c : Color) (w : Rat) (h : c.wf = true) :
+    (invert false c w).wf = true ∧ (invert false c w).inRange = true := by
+  suffices (invert false c w).wf = true from ⟨this, wf_inRange this⟩
+  unfold invert
+  split
+  · exact h
+  · exact (C15_channels_in_range_mix _ _ _).1
+
+theorem asHsla_alpha (c : Color) : c.asHsla.2.2.2 = c.alpha := by
+  unfold Color.asHsla
+  split
+  · rfl
+  · generalize rgbToHsl (c.red / 255) (c.green / 255) (c.blue / 255) = t
+    obtain ⟨h, s, l⟩ := t
+    rfl
+
+/-- adjust-hue, lighten, darken, saturate, desaturate, complement: in range for any amount. -/
+theorem C15_channels_in_range_hsl_functions (c : Color) (x : Rat) (h : c.wf = true) :
+    (adjustHue c x).wf = true ∧ (lighten c x).wf = true ∧ (darken c x).wf = true ∧
+    (saturate c x).wf = true ∧ (desaturate c x).wf = true ∧ (complement c).wf = true := by
+  have ⟨a0, a1⟩ := wf_alpha h
+  have e := asHsla_alpha c
+  unfold adjustHue lighten darken saturate desaturate complement
+  generalize c.asHsla = t at e
+  obtain ⟨hh, s, l, a⟩ := t
+  simp only [] at e ⊢
+  subst e
+  exact ⟨(fromHsla_wf _ _ _ _ a0 a1).1, (fromHsla_wf _ _ _ _ a0 a1).1, (fromHsla_wf _ _ _ _ a0 a1).1,
+    (fromHsla_wf _ _ _ _ a0 a1).1, (fromHsla_wf _ _ _ _ a0 a1).1, (fromHsla_wf _ _ _ _ a0 a1).1⟩
+
+/-- rgba($color, $alpha), opacify/fade-in, transparentize/fade-out: in range for any amount. -/
+theorem C15_channels_in_range_alpha_functions (c : Color) (x : Rat) :
+    (withAlpha c x).wf = true ∧ (fadeIn c x).wf = true ∧ (fadeOut c x).wf = true :=
+  ⟨(fromRgba_wf _ (roundQ_isInt _) (roundQ_isInt _) (roundQ_isInt _)).1,
+   (fromRgba_wf _ (roundQ_isInt _) (roundQ_isInt _) (roundQ_isInt _)).1,
+   (fromRgba_wf _ (roundQ_isInt _) (roundQ_isInt _) (roundQ_isInt _)).1⟩
+
+example : (lighten (newRgba 18 52 87 1 .infer) (1/10)).wf = true := by decide +kernel
+
+/-! ## 4. Same colour through different spellings -/
+
+theorem visitColor_compressed_congr {c d : Color} (hr : c.r = d.r) (hg : c.g = d.g) (hb : c.b = d.b)
+    (ha : c.alpha = d.alpha) : visitColor true c = visitColor true d := by
+  simp only [visitColor, writeRgb, Color.red, Color.green, Color.blue, hr, hg, hb, ha, if_true]
+
+/-- Colours with the same stored channels and the same alpha (raw alphas equal, or both the “opaque”
+    raw values ≥ 1 that names and literals use) are equal under grass's `==` and print identically
+    in compressed mode — whatever spelling (`fmt`) they came from. -/
+theorem C15_spellings_equal_and_print_same {c d : Color} (hr : c.r = d.r) (hg : c.g = d.g) (hb : c.b = d.b)
+    (ha : c.alpha = d.alpha) (hraw : (1 ≤ c.a ∧ 1 ≤ d.a) ∨ c.a = d.a) : sameColor c d = true := by
+  unfold sameColor
+  rw [visitColor_compressed_congr hr hg hb ha]
+  simp only [Color.eq, Color.chanEq, hr, hg, hb, fuzzyEq_self, beq_self_eq_true, Bool.and_true]
+  rcases hraw with ⟨h1, h2⟩ | h
+  · simp [h1, h2]
+  · simp [h, fuzzyEq_self]
+
+theorem alpha_of_le_one {c : Color} (h : c.a ≤ 1) : c.alpha = c.a := by
+  unfold Color.alpha; split <;> grind
+
+theorem chanOk_255_sub {x : Rat} (h : chanOk x = true) : chanOk (255 - x) = true := by
+  have ⟨hi, h0, h1⟩ := chanOk_bounds h
+  have e := eq_intCast_of_isInt hi
+  have : isInt (255 - x) = true := by
+    rw [e]
+    have : (255 : Rat) - ((x.num : Int) : Rat) = ((255 - x.num : Int) : Rat) := by
+      simp [Rat.intCast_sub]
+    rw [this]; exact isInt_intCast _
+  simp [chanOk, this]
+  constructor <;> grind
+
+theorem wf_chan {c : Color} (h : c.wf = true) : chanOk c.r = true ∧ chanOk c.g = true ∧ chanOk c.b = true := by
+  simp only [Color.wf, Bool.and_eq_true] at h
+  exact ⟨h.1.1.1, h.1.1.2, h.1.2⟩
+
+theorem wf_red {c : Color} (h : c.wf = true) : c.red = c.r ∧ c.green = c.g ∧ c.blue = c.b := by
+  have ⟨a, b, d⟩ := wf_chan h
+  exact ⟨roundQ_of_isInt (chanOk_bounds a).1, roundQ_of_isInt (chanOk_bounds b).1, roundQ_of_isInt (chanOk_bounds d).1⟩
+
+/-- A result with the channels of `c` and raw alpha `c.alpha` is the same colour as `c`. -/
+theorem sameColor_of_chan {c d : Color} (hw : c.wf = true) (hr : d.r = c.r) (hg : d.g = c.g) (hb : d.b = c.b)
+    (ha : d.a = c.alpha) : sameColor d c = true := by
+  have ⟨a0, a1⟩ := wf_alpha hw
+  have da : d.alpha = c.alpha := by rw [alpha_of_le_one (by rw [ha]; exact a1), ha]
+  apply C15_spellings_equal_and_print_same hr hg hb da
+  simp only [Color.wf, Bool.and_eq_true, Bool.or_eq_true, decide_eq_true_eq, beq_iff_eq] at hw
+  rcases hw.2 with ⟨b0, b1⟩ | b255
+  · right; rw [ha, alpha_of_le_one b1]
+  · left
+    have : c.alpha = 1 := by unfold Color.alpha; simp only [b255]; decide +kernel
+    rw [ha, this, b255]; decide +kernel
+
+/-! ## 5. mix with weight 100% / 0% returns an operand -/
+
+theorem mixPre_one (c1 c2 : Color) : mixPre c1 c2 1 = (c1.red, c1.green, c1.blue, c1.alpha) := by
+  unfold mixPre
+  have hc : clamp 1 0 100 = 1 := by decide +kernel
+  simp only [hc]
+  generalize c1.alpha - c2.alpha = ad
+  have cw : (if fuzzyEq ((1 * 2 - 1) * ad) (-1) = true then (1 * 2 - 1 : Rat) else ((1 * 2 - 1) + ad) / (1 + (1 * 2 - 1) * ad)) = 1 := by
+    split
+    · grind
+    · rename_i hne
+      have : (1 : Rat) + (1 * 2 - 1) * ad ≠ 0 := by
+        intro h0
+        apply hne
+        have : (1 * 2 - 1) * ad = -1 := by grind
+        rw [this]; exact fuzzyEq_self _
+      grind
+  rw [cw]
+  simp only [Prod.mk.injEq]
+  refine ⟨?_, ?_, ?_, ?_⟩ <;> grind
+
+theorem mixPre_zero (c1 c2 : Color) : mixPre c1 c2 0 = (c2.red, c2.green, c2.blue, c2.alpha) := by
+  unfold mixPre
+  have hc : clamp 0 0 100 = 0 := by decide +kernel
+  simp only [hc]
+  generalize c1.alpha - c2.alpha = ad
+  have cw : (if fuzzyEq ((0 * 2 - 1) * ad) (-1) = true then (0 * 2 - 1 : Rat) else ((0 * 2 - 1) + ad) / (1 + (0 * 2 - 1) * ad)) = -1 := by
+    split
+    · grind
+    · rename_i hne
+      have : (1 : Rat) + (0 * 2 - 1) * ad ≠ 0 := by
+        intro h0
+        apply hne
+        have : (0 * 2 - 1) * ad = -1 := by grind
+        rw [this]; exact fuzzyEq_self _
+      grind
+  rw [cw]
+  simp only [Prod.mk.injEq]
+  refine ⟨?_, ?_, ?_, ?_⟩ <;> grind
+
+theorem mix_of_pre {c1 c2 c : Color} {w : Rat} (hw : c.wf = true)
+    (h : mixPre c1 c2 w = (c.red, c.green, c.blue, c.alpha)) :
+    let d := mix false c1 c2 w
+    d.r = c.r ∧ d.g = c.g ∧ d.b = c.b ∧ d.a = c.alpha := by
+  have ⟨cr, cg, cb⟩ := wf_chan hw
+  have ⟨er, eg, eb⟩ := wf_red hw
+  have ⟨a0, a1⟩ := wf_alpha hw
+  simp only [mix, h, er, eg, eb, Bool.false_eq_true, if_false, fromRgba, newRgba,
+    fuzzyRound_of_isInt (chanOk_bounds cr).1, fuzzyRound_of_isInt (chanOk_bounds cg).1,
+    fuzzyRound_of_isInt (chanOk_bounds cb).1, clamp_chanOk cr, clamp_chanOk cg, clamp_chanOk cb, clamp_id a0 a1]
+  refine ⟨?_, ?_, ?_, ?_⟩ <;> first | trivial | rfl
+
+/-- mix($a, $b, 100%) is `$a` and mix($a, $b, 0%) is `$b` (same colour: `==` and compressed print),
+    for all colours, also with different alphas. -/
+theorem C15_mix_weight_0_100 (c1 c2 : Color) (h1 : c1.wf = true) (h2 : c2.wf = true) :
+    sameColor (mix false c1 c2 1) c1 = true ∧ sameColor (mix false c1 c2 0) c2 = true := by
+  have ⟨a, b, c, d⟩ := mix_of_pre h1 (mixPre_one c1 c2)
+  have ⟨a', b', c', d'⟩ := mix_of_pre h2 (mixPre_zero c1 c2)
+  exact ⟨sameColor_of_chan h1 a b c d, sameColor_of_chan h2 a' b' c' d'⟩
+
+example : sameColor (mix false (newRgba 10 20 30 (1/2) .infer) (newNamed 255 0 0 255 "red") 1) (newRgba 10 20 30 (1/2) .infer) = true := by
+  decide +kernel
+
+/-! ## 6. invert twice -/
+
+theorem invert_full (c : Color) (h : c.wf = true) :
+    let d := invert false c 1
+    d.r = 255 - c.r ∧ d.g = 255 - c.g ∧ d.b = 255 - c.b ∧ d.a = c.alpha := by
+  have ⟨cr, cg, cb⟩ := wf_chan h
+  have ⟨er, eg, eb⟩ := wf_red h
+  have ⟨a0, a1⟩ := wf_alpha h
+  have hz : fuzzyEq 1 0 = false := by decide +kernel
+  have iw : (inverseOf c).wf = true := by
+    unfold inverseOf newRgba
+    rw [er, eg, eb]
+    exact wf_mk (chanOk_255_sub cr) (chanOk_255_sub cg) (chanOk_255_sub cb) a0 a1
+  have key := mix_of_pre (c1 := inverseOf c) (c2 := c) (w := 1) iw (mixPre_one _ _)
+  simp only [invert, hz, Bool.false_eq_true, if_false]
+  have ia : (inverseOf c).alpha = c.alpha := alpha_of_le_one (c := inverseOf c) a1
+  obtain ⟨k1, k2, k3, k4⟩ := key
+  refine ⟨?_, ?_, ?_, ?_⟩
+  · rw [k1]; simp [inverseOf, newRgba, er]
+  · rw [k2]; simp [inverseOf, newRgba, eg]
+  · rw [k3]; simp [inverseOf, newRgba, eb]
+  · rw [k4, ia]
+
+/-- invert(invert($c)) is `$c` for every colour grass can build. -/
+theorem C15_invert_invert (c : Color) (h : c.wf = true) :
+    sameColor (invert false (invert false c 1) 1) c = true := by
+  have ⟨a, b, d, e⟩ := invert_full c h
+  have hw := (C15_channels_in_range_invert c 1 h).1
+  have ⟨a', b', d', e'⟩ := invert_full _ hw
+  have ⟨a0, a1⟩ := wf_alpha h
+  apply sameColor_of_chan h
+  · rw [a', a]; grind
+  · rw [b', b]; grind
+  · rw [d', d]; grind
+  · rw [e', alpha_of_le_one (by rw [e]; exact a1), e]
+
+example : sameColor (invert false (invert false (newNamed 18 52 87 255 "x") 1) 1) (newNamed 18 52 87 255 "x") = true := by
+  decide +kernel
+
+/-! ## 7. opacify / transparentize clamp -/
+
+/-- opacify/transparentize keep the channels and clamp the alpha into [0,1]. -/
+theorem C15_opacify_transparentize_clamp (c : Color) (x : Rat) (h : c.wf = true) :
+    (fadeIn c x).alpha = clamp (c.alpha + x) 0 1 ∧ (fadeOut c x).alpha = clamp (c.alpha - x) 0 1 ∧
+    (fadeIn c 1).alpha = 1 ∧ (fadeOut c 1).alpha = 0 ∧
+    (fadeIn c x).r = c.r ∧ (fadeIn c x).g = c.g ∧ (fadeIn c x).b = c.b ∧
+    (fadeOut c x).r = c.r ∧ (fadeOut c x).g = c.g ∧ (fadeOut c x).b = c.b := by
+  have ⟨cr, cg, cb⟩ := wf_chan h
+  have ⟨er, eg, eb⟩ := wf_red h
+  have ⟨a0, a1⟩ := wf_alpha h
+  have A : ∀ y : Rat, (fromRgba c.red c.green c.blue y).alpha = clamp y 0 1 := by
+    intro y
+    exact alpha_of_le_one (c := fromRgba c.red c.green c.blue y) (clamp_bounds y 0 1 (by decide +kernel)).2
+  have one : clamp (c.alpha + 1) 0 1 = 1 := by
+    rcases clamp_cases (c.alpha + 1) 0 1 (by decide +kernel) with ⟨e, _, _⟩ | ⟨e, _⟩ | ⟨e, _⟩ <;> grind
+  have zero : clamp (c.alpha - 1) 0 1 = 0 := by
+    rcases clamp_cases (c.alpha - 1) 0 1 (by decide +kernel) with ⟨e, _, _⟩ | ⟨e, _⟩ | ⟨e, _⟩ <;> grind
+  refine ⟨A _, A _, ?_, ?_, ?_, ?_, ?_, ?_, ?_, ?_⟩
+  · show (fromRgba c.red c.green c.blue (c.alpha + 1)).alpha = 1
+    rw [A, one]
+  · show (fromRgba c.red c.green c.blue (c.alpha - 1)).alpha = 0
+    rw [A, zero]
+  all_goals simp [fadeIn, fadeOut, fromRgba, newRgba, er, eg, eb, clamp_chanOk cr, clamp_chanOk cg, clamp_chanOk cb]
+
+/-! ## 8. rgb → hsl → rgb -/
+
+theorem sep_of_nat (r g b : Nat) : Sep ((r : Rat) / 255) ((g : Rat) / 255) ((b : Rat) / 255) := by
+  intro u v hu hv
+  rcases hu with rfl | rfl | rfl <;> rcases hv with rfl | rfl | rfl <;> exact sep_natCast _ _
+
+theorem unit_of_nat {n : Nat} (h : n ≤ 255) : 0 ≤ (n : Rat) / 255 ∧ (n : Rat) / 255 ≤ 1 := alpha255_bounds h
+
+/-- **Round trip, symbolic, all 2^24 colours**: converting an 8-bit RGB colour to HSL (`as_hsla`, with
+    its fuzzy comparisons) and back (`from_hsla`, before the final rounding) returns exactly the
+    original channels.  Proved over the six orderings of max/min in `Rat`
+    (Lemmas/ColorRoundTrip.lean: `roundtripE` for all rationals in [0,1], `rgbToHsl_eq_E` for k/255). -/
+theorem C15_rgb_hsl_rgb_roundtrip (r g b : Nat) (hr : r ≤ 255) (hg : g ≤ 255) (hb : b ≤ 255) :
+    hslToRgbExact (rgbToHsl ((r : Rat) / 255) ((g : Rat) / 255) ((b : Rat) / 255)).1
+      (rgbToHsl ((r : Rat) / 255) ((g : Rat) / 255) ((b : Rat) / 255)).2.1
+      (rgbToHsl ((r : Rat) / 255) ((g : Rat) / 255) ((b : Rat) / 255)).2.2 = ((r : Rat), (g : Rat), (b : Rat)) := by
+  have ⟨r0, r1⟩ := unit_of_nat hr
+  have ⟨g0, g1⟩ := unit_of_nat hg
+  have ⟨b0, b1⟩ := unit_of_nat hb
+  rw [rgbToHsl_eq_E (sep_of_nat r g b) r0 r1 g0 g1 b0 b1, roundtripE r0 r1 g0 g1 b0 b1]
+  simp only [Prod.mk.injEq]
+  refine ⟨?_, ?_, ?_⟩ <;> grind
+
+example : rgbToHsl (18/255) (52/255) (87/255) = (4840/23, 23/35, 7/34) := by decide +kernel
+
+theorem chanOk_nat {x : Rat} (h : chanOk x = true) : ∃ n : Nat, n ≤ 255 ∧ x = (n : Rat) := by
+  have ⟨hi, h0, h1⟩ := chanOk_bounds h
+  have e := eq_intCast_of_isInt hi
+  have n0 : 0 ≤ x.num := by
+    have : (0 : Rat) ≤ ((x.num : Int) : Rat) := by rw [← e]; exact h0
+    exact Rat.intCast_nonneg.mp this
+  have n1 : x.num ≤ 255 := by
+    have : ((x.num : Int) : Rat) ≤ ((255 : Int) : Rat) := by rw [← e]; simpa using h1
+    exact Rat.intCast_le_intCast.mp this
+  refine ⟨x.num.toNat, by omega, ?_⟩
+  have t1 : ((x.num.toNat : Nat) : Int) = x.num := Int.toNat_of_nonneg n0
+  have t2 : ((x.num.toNat : Nat) : Rat) = ((x.num : Int) : Rat) := by rw [← Rat.intCast_natCast, t1]
+  rw [t2]; exact e
+
+theorem rgbToHsl_hue_bounds (x y z : Rat) : 0 ≤ (rgbToHsl x y z).1 ∧ (rgbToHsl x y z).1 < 360 := by
+  simp only [rgbToHsl]
+  exact sassMod_bounds _
+
+/-- the stored HSL of a colour, when present, is what the colour was built from (`from_hsla`) -/
+def hslConsistent (c : Color) : Prop :=
+  match c.hsl with
+  | none => True
+  | some h => 0 ≤ h.hue ∧ h.hue < 360 ∧ 0 ≤ h.sat ∧ h.sat ≤ 1 ∧ 0 ≤ h.lum ∧ h.lum ≤ 1 ∧
+      c.r = fuzzyRound (hslToRgbExact h.hue h.sat h.lum).1 ∧
+      c.g = fuzzyRound (hslToRgbExact h.hue h.sat h.lum).2.1 ∧
+      c.b = fuzzyRound (hslToRgbExact h.hue h.sat h.lum).2.2
+
+theorem fromHsla_fields (h s l a : Rat) :
+    (fromHsla h s l a).r = fuzzyRound (hslToRgbExact (sassMod h 360) s l).1 ∧
+    (fromHsla h s l a).g = fuzzyRound (hslToRgbExact (sassMod h 360) s l).2.1 ∧
+    (fromHsla h s l a).b = fuzzyRound (hslToRgbExact (sassMod h 360) s l).2.2 ∧
+    (fromHsla h s l a).a = a ∧
+    (fromHsla h s l a).hsl = some { hue := sassMod h 360, sat := clamp s 0 1, lum := clamp l 0 1 } := by
+  simp only [fromHsla]
+  generalize hslToRgbExact (sassMod h 360) s l = t
+  obtain ⟨r, g, b⟩ := t
+  refine ⟨?_, ?_, ?_, ?_, ?_⟩ <;> first | trivial | rfl
+
+theorem hslToRgbExact_clamp (h s l : Rat) :
+    hslToRgbExact h (clamp s 0 1) (clamp l 0 1) = hslToRgbExact h s l := by
+  have cs : clamp (clamp s 0 1) 0 1 = clamp s 0 1 := by
+    have ⟨a, b⟩ := clamp_bounds s 0 1 (by decide +kernel); exact clamp_id a b
+  have cl : clamp (clamp l 0 1) 0 1 = clamp l 0 1 := by
+    have ⟨a, b⟩ := clamp_bounds l 0 1 (by decide +kernel); exact clamp_id a b
+  simp only [hslToRgbExact, cs, cl]
+
+theorem fromHsla_consistent (h s l a : Rat) : hslConsistent (fromHsla h s l a) := by
+  have ⟨f1, f2, f3, _, f5⟩ := fromHsla_fields h s l a
+  have ⟨h0, h1⟩ := sassMod_bounds h
+  have ⟨s0, s1⟩ := clamp_bounds s 0 1 (by decide +kernel)
+  have ⟨l0, l1⟩ := clamp_bounds l 0 1 (by decide +kernel)
+  unfold hslConsistent
+  rw [f5]
+  simp only [hslToRgbExact_clamp]
+  exact ⟨h0, h1, s0, s1, l0, l1, f1, f2, f3⟩
+
+/-- `from_hsla(as_hsla(c))` rebuilds `c`'s channels — by the round trip for colours that store only
+    RGB, by construction for colours that keep the HSL they were built from. -/
+theorem rebuild (c : Color) (hw : c.wf = true) (hc : hslConsistent c) :
+    (fromHsla c.asHsla.1 c.asHsla.2.1 c.asHsla.2.2.1 c.asHsla.2.2.2).r = c.r ∧
+    (fromHsla c.asHsla.1 c.asHsla.2.1 c.asHsla.2.2.1 c.asHsla.2.2.2).g = c.g ∧
+    (fromHsla c.asHsla.1 c.asHsla.2.1 c.asHsla.2.2.1 c.asHsla.2.2.2).b = c.b ∧
+    (fromHsla c.asHsla.1 c.asHsla.2.1 c.asHsla.2.2.1 c.asHsla.2.2.2).a = c.alpha := by
+  have ⟨cr, cg, cb⟩ := wf_chan hw
+  have ⟨er, eg, eb⟩ := wf_red hw
+  have ha := asHsla_alpha c
+  have ⟨f1, f2, f3, f4, _⟩ := fromHsla_fields c.asHsla.1 c.asHsla.2.1 c.asHsla.2.2.1 c.asHsla.2.2.2
+  rw [f1, f2, f3, f4, ha]
+  refine ⟨?_, ?_, ?_, rfl⟩
+  all_goals
+    unfold hslConsistent at hc
+    unfold Color.asHsla
+    cases hh : c.hsl with
+    | some h =>
+      rw [hh] at hc
+      simp only [] at hc ⊢
+      obtain ⟨h0, h1, _, _, _, _, k1, k2, k3⟩ := hc
+      rw [sassMod_id h0 h1]
+      first | exact k1.symm | exact k2.symm | exact k3.symm
+    | none =>
+      simp only []
+      obtain ⟨nr, hnr, enr⟩ := chanOk_nat cr
+      obtain ⟨ng, hng, eng⟩ := chanOk_nat cg
+      obtain ⟨nb, hnb, enb⟩ := chanOk_nat cb
+      rw [er, eg, eb, enr, eng, enb]
+      have hb := rgbToHsl_hue_bounds ((nr : Rat) / 255) ((ng : Rat) / 255) ((nb : Rat) / 255)
+      have rt := C15_rgb_hsl_rgb_roundtrip nr ng nb hnr hng hnb
+      generalize rgbToHsl ((nr : Rat) / 255) ((ng : Rat) / 255) ((nb : Rat) / 255) = t at hb rt
+      obtain ⟨th, ts, tl⟩ := t
+      simp only [] at hb rt ⊢
+      rw [sassMod_id hb.1 hb.2, rt]
+      simp only []
+      first | exact fuzzyRound_of_isInt (isInt_natCast _)
 
 end Grass.Color
